@@ -816,3 +816,34 @@ Fixpoint c03s_from (rep : list (N * cstate)) (before : obs) (tr : list event) : 
   end.
 
 Definition C03S_ok (raw : option config) (o0 : obs) (tr : list event) : bool := c03s_from [] o0 tr.
+
+(* --- C03, additional clause kept separate (added after seeded change C03-r5b, which cleared a channel's
+   `refreshing` flag while its replacement stayed registered, so that a second replacement could be created):
+   "a refresh may hold ONE extra connection per refreshing channel until the swap" as a condition on every
+   observed state: the registered replacements (refreshingScRefs) and the refreshing channels are in
+   bijection - every registered replacement belongs to a channel that is marked refreshing, no channel has two,
+   and every refreshing channel has one. --- *)
+Fixpoint nodup_nat (l : list nat) : bool :=
+  match l with
+  | [] => true
+  | x :: r => negb (memnat x r) && nodup_nat r
+  end.
+
+Fixpoint refreshing_slots (i : nat) (sl : list slot) : list nat :=
+  match sl with
+  | [] => []
+  | x :: r => if sl_refreshing x then i :: refreshing_slots (S i) r else refreshing_slots (S i) r
+  end.
+
+Definition c03x_state (o : obs) : bool :=
+  forallb (fun ci => match o_slot o (snd ci) with Some x => sl_refreshing x | None => false end) (o_refr o) &&
+  nodup_nat (map snd (o_refr o)) &&
+  forallb (fun i => memnat i (map snd (o_refr o))) (refreshing_slots 0 (o_slots o)).
+
+Fixpoint c03x_from (tr : list event) : bool :=
+  match tr with
+  | [] => true
+  | ev :: r => match ev_obs ev with Some after => c03x_state after && c03x_from r | None => true end
+  end.
+
+Definition C03X_ok (raw : option config) (o0 : obs) (tr : list event) : bool := c03x_state o0 && c03x_from tr.
